@@ -46,15 +46,23 @@ def impl_parse(text):
         return {'err': 'internal:' + type(e).__name__}
 
 
-def spellings(rng, csg, psgs, k):
-    """k random well-formed spellings of the group: random order, random split into runs, counts optional."""
+def spellings(rng, csg, psgs, k, zero_runs=True):
+    """k random well-formed spellings of the group: random order, random split into runs, counts optional, counts with
+    leading zeros, and runs written with the repeat count 0 (of names inside and outside the multiset: `Spec.Run.cnt = some 0`
+    denotes no occurrence) at any position."""
     out = []
     for _ in range(k):
         ps = list(psgs)
         rng.shuffle(ps)
         text = csg
+
+        def zero_run():
+            pool = [p for p in ps + ALPHA_SMALL if p and '(' not in p and ')' not in p and not p.isdigit()]
+            return '(%s)%s' % (rng.choice(pool), rng.choice(['0', '0', '00', '٠']))
         i = 0
         while i < len(ps):
+            if zero_runs and rng.random() < 0.12:
+                text += zero_run()
             j = i
             while j < len(ps) and ps[j] == ps[i]:
                 j += 1
@@ -62,13 +70,111 @@ def spellings(rng, csg, psgs, k):
             style = rng.random()
             if run == 1 and style < 0.7:
                 text += '(%s)' % ps[i]
-            elif style < 0.9:
+            elif style < 0.85:
                 text += '(%s)%d' % (ps[i], run)
+            elif style < 0.92:
+                text += '(%s)%s%d' % (ps[i], rng.choice(['0', '00']), run)      # leading zeros
             else:
                 text += '(%s)%s' % (ps[i], ''.join(chr(0x660 + int(d)) for d in str(run)))  # Arabic-Indic decimals
             i += run
+        if zero_runs and rng.random() < 0.12:
+            text += zero_run()
         out.append(text)
     return out
+
+
+class _ReIterable(object):
+    """an iterable that is not a sequence: only __iter__, may be walked any number of times"""
+    def __init__(self, items):
+        self._items = list(items)
+
+    def __iter__(self):
+        return iter(list(self._items))
+
+
+class _OneShot(object):
+    """an iterator object: __iter__ returns itself, exhausted after one walk"""
+    def __init__(self, items):
+        self._items = list(items)
+        self._i = 0
+
+    def __iter__(self):
+        return self
+
+    def __next__(self):
+        if self._i >= len(self._items):
+            raise StopIteration
+        self._i += 1
+        return self._items[self._i - 1]
+
+
+class _OldSequence(object):
+    """iterable through the old sequence protocol only (__getitem__ until IndexError), no __len__, no __iter__"""
+    def __init__(self, items):
+        self._items = list(items)
+
+    def __getitem__(self, i):
+        return self._items[i]
+
+
+def iterable_forms(psgs):
+    """[(description, zero-argument factory)] — every kind of `iterable of strs` the constructor's documentation allows, each
+    holding the peripherals `psgs` (in some order). One-shot iterators come first in the list on purpose."""
+    import numpy as np
+    ps = list(psgs)
+    forms = [
+        ('generator expression', lambda: (p for p in ps)),
+        ('iter(list)', lambda: iter(list(ps))),
+        ('reversed(list)', lambda: reversed(list(ps))),
+        ('map(str, list)', lambda: map(str, ps)),
+        ('filter(accept all, list)', lambda: filter(lambda p: True, ps)),
+        ('itertools.chain(two halves)', lambda: itertools.chain(ps[:len(ps) // 2], ps[len(ps) // 2:])),
+        ('collections.Counter(list).elements()', lambda: collections.Counter(ps).elements()),
+        ('iterator object (__iter__ returns self)', lambda: _OneShot(ps)),
+        ('zip-unpacked generator', lambda: (p for p, _ in zip(ps, itertools.count()))),
+        ('tuple', lambda: tuple(ps)),
+        ('list', lambda: list(ps)),
+        ('collections.deque', lambda: collections.deque(ps)),
+        ('re-iterable object (only __iter__)', lambda: _ReIterable(ps)),
+        ('old-style sequence (only __getitem__)', lambda: _OldSequence(ps)),
+        ('numpy object array', lambda: np.array(ps, dtype=object)),
+        ('numpy str array', lambda: np.array(ps) if ps else np.array([], dtype=str)),
+        ('dict values view', lambda: dict(enumerate(ps)).values()),
+    ]
+    if len(set(ps)) == len(ps):
+        forms += [('set', lambda: set(ps)), ('frozenset', lambda: frozenset(ps)), ('dict (its keys)', lambda: dict.fromkeys(ps, 0)),
+                  ('dict keys view', lambda: dict.fromkeys(ps, 0).keys())]
+    if ps and all(len(p) == 1 for p in ps):
+        forms.append(('str of one-character names', lambda: ''.join(ps)))
+    return forms
+
+
+def check_iterables(ctx, csg, psgs, g, inp):
+    """the constructor is documented to take any iterable of strs: the group built from the same peripherals handed over in
+    any other form of iterable is the same group (name, ==, hash, string interop, dict entry), and a list handed over is left
+    as it was"""
+    from pgradd.GroupAdd.Group import Group
+    name = g.name
+    for what, make in iterable_forms(psgs):
+        ctx.count('iterable_forms')
+        arg = make()
+        keep = list(arg) if isinstance(arg, (list, tuple, collections.deque)) else None
+        try:
+            h = Group(None, csg, arg)
+            got = h.name
+            same = (h == g and g == h and hash(h) == hash(g) and {g: 1}.get(h) == 1 and h == name and name == h
+                    and {name: 1}.get(h) == 1 and str(h) == name and type(got) is str)
+        except Exception as e:  # noqa
+            got, same = 'raises ' + type(e).__name__, False
+        if not same:
+            ctx.violation('the group built from the same peripherals given as another kind of iterable is a different group',
+                          dict(inp, given_as=what), expected=name, observed=got)
+            return False
+        if keep is not None and list(arg) != keep:
+            ctx.violation('constructing a group changes the sequence of peripherals it was given', dict(inp, given_as=what),
+                          expected=keep, observed=list(arg))
+            return False
+    return True
 
 
 def spec_same(a, b):
@@ -108,6 +214,8 @@ def check_group(ctx, csg, psgs, batch):
     if not interop:
         ctx.violation('group is not interchangeable with its canonical name as a string', inp,
                       expected='g == name and dict interop', observed=name)
+    # (a') the same peripherals handed over as any other kind of iterable
+    check_iterables(ctx, csg, psgs, g, inp)
     if wf(csg, psgs):
         # (b) canonical name parses back to the same group
         r = impl_parse(name)
@@ -297,10 +405,15 @@ def lookup_check(ctx):
             csg, psgs = r['ok']['csg'], r['ok']['psgs']
             ps = list(psgs)
             ctx.rng.shuffle(ps)
-            by_parse = lib[Group.parse(lib.scheme, nm)]
-            by_ctor = lib[Group(lib.scheme, csg, ps)]
-            by_spelling = lib[Group.parse(lib.scheme, spellings(ctx.rng, csg, psgs, 1)[0])] if wf(csg, psgs) else by_parse
-            by_string = lib[r['ok']['name']]
+            try:
+                by_parse = lib[Group.parse(lib.scheme, nm)]
+                by_ctor = lib[Group(lib.scheme, csg, iter(ps))]   # a one-shot iterable, as the documentation allows
+                by_spelling = lib[Group.parse(lib.scheme, spellings(ctx.rng, csg, psgs, 1)[0])] if wf(csg, psgs) else by_parse
+                by_string = lib[r['ok']['name']]
+            except Exception as e:  # noqa
+                ctx.violation('looking a group up in a library raises', {'library': libname, 'written': nm, 'csg': csg, 'psgs': ps},
+                              'the entry', type(e).__name__)
+                break
             ctx.case(None)
             ctx.count('library_lookups')
             if not (by_parse and by_ctor is by_parse and by_spelling is by_parse and by_string is by_parse):
@@ -342,8 +455,13 @@ def synthetic_library_check(ctx):
         rng.shuffle(q)
         ctx.case(('synthlib', text), None)
         ctx.count('synthetic_library_entries')
-        entries = [lib[Group(lib.scheme, csg, q)], lib[Group.parse(lib.scheme, text)],
-                   lib[impl_group(csg, ps).name], lib[Group.parse(lib.scheme, spellings(rng, csg, ps, 1)[0])]]
+        try:
+            entries = [lib[Group(lib.scheme, csg, (p for p in q))], lib[Group.parse(lib.scheme, text)],
+                       lib[impl_group(csg, ps).name], lib[Group.parse(lib.scheme, spellings(rng, csg, ps, 1)[0])]]
+        except Exception as e:  # noqa
+            ctx.violation('looking a group up in a library raises', {'written': text, 'csg': csg, 'psgs': list(ps)}, 'the entry',
+                          type(e).__name__)
+            break
         if not all(e and e is entries[0] for e in entries):
             ctx.violation('a library entry written in a non-canonical spelling is not indexed by the group it denotes',
                           {'written': text, 'csg': csg, 'psgs': list(ps)}, 'found via constructor / parse / canonical string / other spelling',
@@ -382,6 +500,11 @@ def replay(ctx, rec, record=False):
         ka, kb = (inp['a'][0], tuple(sorted(inp['a'][1]))), (inp['b'][0], tuple(sorted(inp['b'][1])))
         check_distinct(ctx, [ka, kb], extra_pairs=[(ka, kb)])
     else:
+        if 'text' in inp:   # a recorded spelling of the group: that very text must parse to it
+            name = impl_group(inp['csg'], inp['psgs']).name
+            r = impl_parse(inp['text'])
+            if 'ok' not in r or r['ok']['name'] != name or not spec_same((r['ok']['csg'], r['ok']['psgs']), (inp['csg'], inp['psgs'])):
+                ctx.violation('a spelling of the group parses to a different group', inp, expected=name, observed=r)
         check_group(ctx, inp['csg'], inp['psgs'], batch)
     return len(ctx.violations) == before
 
